@@ -5,7 +5,7 @@ from datetime import datetime, timedelta
 import numpy as np
 
 from tradingenv.env import TradingEnv
-from tradingenv.contracts import ES, NK, VX, ZQ, ZT, ZF, ZN, ZB, ETF, FutureChain, AbstractContract
+from tradingenv.contracts import ES, NK, VX, ZQ, ZT, ZF, ZN, ZB, ETF, FutureChain, AbstractContract, Future
 from tradingenv.spaces import BoxPortfolio
 from tradingenv.transmitter import Transmitter
 from tradingenv.events import EventNBBO
@@ -16,7 +16,21 @@ from vf import ep
 PROP = "C11"
 LEVEL = "exploration"
 ENGINE = "CAL+EP"
-CLASSES = [ES, NK, VX, ZQ, ZT, ZF, ZN, ZB]
+class UCL(Future):
+    """A user-defined future: monthly, settled on the 22nd, last trade on the 20th at 14:30 (an INTRADAY last-trading
+    instant - the built-in classes all stop at midnight)."""
+    freq = "MS"
+    multiplier = 1000.0
+    margin_requirement = 0.1
+
+    def _get_expiry_date(self, year, month):
+        return datetime(year, month, 22)
+
+    def _get_last_trading_date(self, expiry):
+        return expiry - timedelta(days=2) + timedelta(hours=14, minutes=30)
+
+
+CLASSES = [ES, NK, VX, ZQ, ZT, ZF, ZN, ZB, UCL]
 DECADES = list(range(1970, 2100, 10))
 N = {"quick": 40, "thorough": 2400}
 TIME = {"quick": 300, "thorough": 480}
@@ -33,7 +47,7 @@ ASSUMPTIONS = ["grid gaps shorter than the roll window (expiry - last trading da
                "chain spans cover the process clock (K3 is reported under C10 only)"]
 REQUIRED = ["C11:lead-resolution", "C11:never-past-last-trading", "C11:monotone", "C11:others-flat", "C11:not-held-at-expiry",
             "C11:roll-closes-old-lead", "C11:new-lead-at-own-quotes"]
-REQUIRED_CATS = ["resolution:refused-lookup-then-carry-on", "chain-marked-directly-on-the-broker", "resolution:copied-chain", "second-episode-on-same-chain", "rolled-while-holding-below-threshold", "another-chain-environment-later-in-time", "market-data-keyed-by-chain", "resolution:explicit-unsorted-list", "roll-inside-latency-window", "rolling:ES", "rolling:NK", "rolling:VX", "rolling:ZN", "rolled-while-holding"]
+REQUIRED_CATS = ["resolution:UCL", "resolution:refused-lookup-then-carry-on", "chain-marked-directly-on-the-broker", "resolution:copied-chain", "second-episode-on-same-chain", "rolled-while-holding-below-threshold", "another-chain-environment-later-in-time", "market-data-keyed-by-chain", "resolution:explicit-unsorted-list", "roll-inside-latency-window", "rolling:ES", "rolling:NK", "rolling:VX", "rolling:ZN", "rolled-while-holding"]
 REQUIRED_HITS = ["Broker.transact", "Broker.rebalance"]
 TECHNIQUE = "runtime monitoring: complete enumeration of roll instants against a linear-scan reference; holdings invariants after every step of rolling episodes"
 LEVEL_TEXT = ("Roll instants of every built-in class are enumerated completely per decade (exact instant and +-1us) against an "
